@@ -21,6 +21,9 @@ import (
 
 const ModuleName = "buffer"
 
+// maxLength is the largest size of a Buffer (buffer.constants.MAX_LENGTH in Node).
+const maxLength = math.MaxInt32
+
 type Buffer struct {
 	r *goja.Runtime
 
@@ -312,9 +315,15 @@ func (b *Buffer) _from(args ...goja.Value) *goja.Object {
 			}
 			// array-like
 			if v := o.Get("length"); v != nil {
-				length := int(v.ToInteger())
+				length := v.ToInteger()
+				if length < 0 {
+					length = 0
+				}
+				if length > maxLength {
+					panic(errors.NewArgumentOutOfRangeError(b.r, "length", length))
+				}
 				a := make([]byte, length)
-				for i := 0; i < length; i++ {
+				for i := 0; i < int(length); i++ {
 					item := o.Get(strconv.Itoa(i))
 					if item != nil {
 						a[i] = byte(item.ToInteger())
@@ -373,6 +382,9 @@ func (b *Buffer) alloc(call goja.FunctionCall) goja.Value {
 	}
 	if size < 0 {
 		panic(errors.NewArgumentNotNumberTypeError(b.r, "size"))
+	}
+	if size > maxLength {
+		panic(errors.NewArgumentOutOfRangeError(b.r, "size", size))
 	}
 	fill := call.Argument(1)
 	buf := make([]byte, size)
